@@ -662,6 +662,12 @@ func (r *runner) resolveCompletedTasks(ctx context.Context, completedTasks []*ta
 				if _, ok := writeChannelValues[next]; !ok {
 					writeChannelValues[next] = make(map[string]any)
 				}
+				if old, dup := writeChannelValues[next][t.nodeKey]; dup {
+					// a branch target that is also a data successor appears twice: release the surplus copy
+					if sr, ok := old.(streamReader); ok {
+						sr.close()
+					}
+				}
 				writeChannelValues[next][t.nodeKey] = vs[i]
 			}
 		}
